@@ -536,6 +536,8 @@ def cvecs(vs):
 
 def crnd(it):
     logu = float(np.log(it["u"])) if it.get("u") is not None else 0.0
+    if it.get("z") is not None:
+        logu = float(it["z"])
     return "(mkR %s %s %s)" % (cqvec(it["vec"]), cq(logu), cz(it.get("acc", 1)))
 
 
@@ -1311,11 +1313,13 @@ def real_script(meta, obs):
     res = obs.get("results") or [[] for _ in range(k)]
     zus = obs.get("zused") or [[] for _ in range(k)]
 
-    def get(i, n):
-        if real_kind(meta, i) == "KConj":                    # the model computes the draw itself from the scripted variate
-            return [zus[i][n]] if n < len(zus[i]) else [1.0]
-        return res[i][n] if n < len(res[i]) else [0.0] * meta["spec"]["dims"][i]      # fewer transitions than configured: the oracle reports it
-    return [[[{"vec": get(i, t * nst[i] + j), "u": None, "acc": 1} for j in range(nst[i])] for i in range(k)] for t in range(nsw)]
+    def item(i, n):
+        vec = res[i][n] if n < len(res[i]) else [0.0] * meta["spec"]["dims"][i]      # fewer transitions than configured: the oracle reports it
+        it = {"vec": vec, "u": None, "acc": 1}
+        if real_kind(meta, i) == "KConj":       # the model computes the draw itself: scripted standard variate / rate (the observed
+            it["z"] = zus[i][n] if n < len(zus[i]) else 1.0          # point is only adopted when it agrees to 1e-7)
+        return it
+    return [[[item(i, t * nst[i] + j) for j in range(nst[i])] for i in range(k)] for t in range(nsw)]
 
 
 def real_results_script(meta, obs):
